@@ -1081,6 +1081,77 @@ pub fn extras(thorough: bool) -> Vec<Extra> {
             });
         }
     }
+    // (l) window frames: unit x start x optional end (40 forms), inline OVER ( .. ) and in a named WINDOW
+    {
+        let bounds = ["UNBOUNDED PRECEDING", "1 PRECEDING", "CURRENT ROW", "2 FOLLOWING", "UNBOUNDED FOLLOWING"];
+        for unit in ["ROWS", "RANGE"] {
+            for si in 0..4usize {
+                for ei in [None, Some(1usize), Some(2), Some(3), Some(4)] {
+                    for named in [false, true] {
+                        v.push(Extra {
+                            name: format!("window-frame {unit} {} {:?} named={named}", bounds[si], ei.map(|e| bounds[e])),
+                            real: Box::new(move |d, build| {
+                                let fr = |i: usize| match i {
+                                    0 => Frame::UnboundedPreceding,
+                                    1 => Frame::Preceding(1),
+                                    2 => Frame::CurrentRow,
+                                    3 => Frame::Following(2),
+                                    _ => Frame::UnboundedFollowing,
+                                };
+                                let ft = if unit == "ROWS" { FrameType::Rows } else { FrameType::Range };
+                                let mut w = WindowStatement::partition_by(a("s"));
+                                w.order_by(a("id"), Order::Asc);
+                                match ei {
+                                    None => w.frame_start(ft, fr(si)),
+                                    Some(e) => w.frame_between(ft, fr(si), fr(e)),
+                                };
+                                let mut s = Query::select();
+                                s.from(a("t1")).column(a("id"));
+                                if named {
+                                    s.expr_window_name_as(Func::sum(Expr::col(a("b"))), a("w"), a("x")).window(a("w"), w);
+                                } else {
+                                    s.expr_window_as(Func::sum(Expr::col(a("b"))), w, a("x"));
+                                }
+                                s.order_by(a("id"), Order::Asc);
+                                render_sel(&s, d, build)
+                            }),
+                            reference: Box::new(move |d, build| {
+                                let q = |n: &str| qd(d, n);
+                                let mut n = 0;
+                                let mut b = |i: usize| -> String {
+                                    match i {
+                                        1 => {
+                                            n += 1;
+                                            format!("{} PRECEDING", ph(d, build, n, "1"))
+                                        }
+                                        3 => {
+                                            n += 1;
+                                            format!("{} FOLLOWING", ph(d, build, n, "2"))
+                                        }
+                                        k => bounds[k].to_string(),
+                                    }
+                                };
+                                let frame = match ei {
+                                    None => format!("{unit} {}", b(si)),
+                                    Some(e) => {
+                                        let x = b(si);
+                                        let y = b(e);
+                                        format!("{unit} BETWEEN {x} AND {y}")
+                                    }
+                                };
+                                let spec = format!("(PARTITION BY {} ORDER BY {} ASC {frame})", q("s"), q("id"));
+                                Some(if named {
+                                    format!("SELECT {}, SUM({}) OVER {} AS {} FROM {} WINDOW {} AS {spec} ORDER BY {} ASC", q("id"), q("b"), q("w"), q("x"), q("t1"), q("w"), q("id"))
+                                } else {
+                                    format!("SELECT {}, SUM({}) OVER {spec} AS {} FROM {} ORDER BY {} ASC", q("id"), q("b"), q("x"), q("t1"), q("id"))
+                                })
+                            }),
+                        });
+                    }
+                }
+            }
+        }
+    }
     // (k) INSERT / UPDATE / DELETE with a WITH clause, attached through `.with(clause)` (a WithQuery) and through
     //     `.with_cte(clause)`: PostgreSQL and SQLite put the clause in front of the statement, MySQL in front of UPDATE /
     //     DELETE but, for INSERT, in front of the SELECT source
@@ -1229,7 +1300,7 @@ pub fn extras(thorough: bool) -> Vec<Extra> {
 /// one construct = one key: the family name (for the parameterised families the first word)
 pub fn family_of(name: &str) -> String {
     let first = name.split(' ').next().unwrap_or("").to_string();
-    if ["index-hints", "named-window", "with", "lock", "tablesample", "distinct-on", "order-by"].contains(&first.as_str()) {
+    if ["index-hints", "named-window", "with", "lock", "tablesample", "distinct-on", "order-by", "window-frame"].contains(&first.as_str()) {
         first
     } else {
         name.split(' ').take(2).collect::<Vec<_>>().join(" ")
